@@ -249,8 +249,8 @@ def gen_direct(defs):
         return [ast.unparse(x) for x in ast.walk(node) if isinstance(x, (ast.Assign, ast.AugAssign))]
     allst = stmts(integ)
     for need in ("mask = II < JJ", "I_sqrt = np.zeros(R.shape)", "I_isqrt = np.zeros(R.shape)",
-                 "mask2 = (II > JJ - 2) & (II < JJ + 1)", "(R, Y) = np.meshgrid(r, r, indexing='ij')",
-                 "(II, JJ) = np.meshgrid(i_vect, i_vect, indexing='ij')", "i_vect = np.arange(len(r), dtype=int)",
+                 "mask2 = (II > JJ - 2) & (II < JJ + 1)", "R, Y = np.meshgrid(r, r, indexing='ij')",
+                 "II, JJ = np.meshgrid(i_vect, i_vect, indexing='ij')", "i_vect = np.arange(len(r), dtype=int)",
                  "out = np.zeros(f.shape)", "out[i, :] = int_func(P, axis=1, **int_opts)",
                  "out[i, :] = out[i, :] - 0.5 * int_func(P * mask2, axis=1, **int_opts)",
                  "isqrt = I_sqrt[II + 1 == JJ]", "ratio = np.append(np.cosh(1), r[2:] / r[1:-1])", "acr = np.arccosh(ratio)"):
